@@ -320,11 +320,14 @@ def py_noop(files, rng, rel):
     chosen = rng.sample(spots, k)
     inserts = {}
     used = []
+    taken = dict(files)
     for (ln, ind, in_class) in chosen:
         if in_class or rng.random() < 0.5:
             stmt = "pass"
         else:
-            nm = fresh_name(files, rng, "_unused")
+            nm = fresh_name(taken, rng, "_unused")
+            if nm is not None:
+                taken[f"<inserted {len(taken)}>"] = nm
             if nm is None:
                 stmt = "pass"
             else:
@@ -650,6 +653,57 @@ def _apply_renames(text, positions, old, new):
     return join_lines(lines)
 
 
+def _stmt_start_lines(tree):
+    """[(first line, last line of the statement's own part, start line reported for it)]: a simple statement spans all
+    its lines; a compound statement only its header (up to the line before its first body statement)."""
+    out = []
+    for n in ast.walk(tree):
+        if not isinstance(n, ast.stmt):
+            continue
+        first = min([n.lineno] + [d.lineno for d in getattr(n, "decorator_list", [])])
+        last = n.end_lineno
+        body = getattr(n, "body", None)
+        if isinstance(body, list) and body and isinstance(body[0], ast.stmt):
+            last = max(first, min(x.lineno for x in body) - 1)
+            if body[0].lineno == n.lineno:
+                last = n.lineno
+        out.append((first, last, n.lineno))
+        if first != n.lineno:
+            out.append((first, last, first))
+    return out
+
+
+def _name_map_with_stmt_starts(rel, tree, positions, other_positions, old, new):
+    """lian reports an occurrence on the START line of the statement it belongs to, which for a multi-line statement is
+    not the line the identifier stands on: the name map gets an entry for both. None when an occurrence of the same
+    name that is NOT renamed shares one of those lines (the line-keyed map would be ambiguous)."""
+    spans = _stmt_start_lines(tree)
+
+    def lines_of(ln):
+        ls = {ln}
+        best = None
+        for (f, l, start) in spans:
+            if f <= ln <= l and (best is None or (l - f) <= (best[1] - best[0])):
+                if best is not None and (l - f) == (best[1] - best[0]):
+                    ls.add(start)
+                best = (f, l, start)
+        if best is not None:
+            ls.add(best[2])
+            for (f, l, start) in spans:
+                if (f, l) == (best[0], best[1]):
+                    ls.add(start)
+        return ls
+    mine = set()
+    for (ln, _) in positions:
+        mine |= lines_of(ln)
+    theirs = set()
+    for (ln, _) in other_positions:
+        theirs |= lines_of(ln)
+    if mine & theirs:
+        return None
+    return {(rel, ln, old): new for ln in mine}
+
+
 _RENAME_KINDS = {"rename-local": "assign", "rename-param": "param", "rename-function": "def", "rename-class": "class"}
 
 
@@ -748,7 +802,10 @@ def py_rename(files, rng, rel, kind, protected=(), multi_file=False):
         return None
     out = dict(files)
     out[rel] = new_text
-    nm = {(rel, ln, old): new for (ln, _) in positions}
+    others = {(ln, col) for s in b.scopes for (nm_, ln, col) in s.uses if nm_ == old} - positions
+    nm = _name_map_with_stmt_starts(rel, ta, positions, others, old, new)
+    if nm is None:
+        return None
     return Step(kind, out, identity_line_map(files), name_map=nm,
                 detail={"file": rel, "old": old, "new": new, "scope": [list(x) for x in scope.path()], "occurrences": len(positions)},
                 target=rel)
@@ -806,7 +863,9 @@ def _py_rename_method(files, rng, rel, b, protected, multi_file):
         return None
     out = dict(files)
     out[rel] = new_text
-    nm = {(rel, ln, old): new for (ln, _) in positions}
+    nm = _name_map_with_stmt_starts(rel, ta, positions, set(), old, new)
+    if nm is None:
+        return None
     return Step("rename-method", out, identity_line_map(files), name_map=nm,
                 detail={"file": rel, "old": old, "new": new, "class": cls_scope.name, "occurrences": len(positions)}, target=rel)
 
